@@ -29,7 +29,7 @@ def validate_traces(res, seed, tier, work, trace_files):
         with open(tfn) as fh:
             lines += fh.read().splitlines()
     total, lives, rejected = len(lines), sum(1 for l in lines if '"ev":"trace"' in l), 0
-    self_test(work, lines)
+    original = list(lines)
     for attempt in range(6):
         p = os.path.join(work, "trace.ndjson")
         with open(p, "w") as fh:
@@ -54,7 +54,9 @@ def validate_traces(res, seed, tier, work, trace_files):
         lines = lines[:start] + lines[end:]
         if not lines:
             break
-    return {"trace_lines": total, "lives": lives, "lives_rejected": rejected, "cmd": r["cmd"]}
+    if rejected == 0:
+        self_test(work, original)        # the binding demonstration needs traces that are accepted when undamaged
+    return {"trace_lines": total, "lives": lives, "lives_rejected": rejected, "cmd": r["cmd"], "binding_self_test": rejected == 0}
 
 
 def self_test(work, lines):
